@@ -39,6 +39,7 @@ class World:
         self.files, self.old_map, self.indexed, self.errors, self.whitelist, self.zdir = files, old_map, indexed, errors, whitelist, zdir
         self.contents = contents or {}
         self.missing = missing or set()
+        self.today = "20240107"  # what date.today() answers in this world
         self.hash_path = f"{zdir}/.zorg/file_hash.json"
         self.wl_path = f"{zdir}/.zorg/error_file_whitelist.txt"
 
@@ -172,6 +173,26 @@ class World:
                     return [(None, st)]
                 st.note(f"session method {name}")
                 return [(Unknown(name), st)]
+            if recv.cls.startswith("ext:datetime") and name in ("today", "now", "utcnow") and not args:
+                return [(Opaque("vday", W.today), st)]
+            if recv.cls.startswith("ext:datetime") and name == "strptime" and len(args) == 2 and all(isinstance(a, str) for a in args):
+                # library fact on constants: the text parses as that format or strptime raises ValueError
+                import datetime as _dt
+
+                try:
+                    d = _dt.datetime.strptime(args[0], args[1])
+                except ValueError:
+                    return [(Raised("ValueError", node, "strptime"), st)]
+                return [(Opaque("vday", d.strftime("%Y%m%d")), st)]
+            if recv.cls == "vday":
+                if name in ("date", "today") and not args:
+                    return [(recv, st)]
+                if name == "strftime" and len(args) == 1 and isinstance(args[0], str):
+                    import datetime as _dt
+
+                    return [(_dt.datetime.strptime(recv.tag, "%Y%m%d").strftime(args[0]), st)]
+                if name == "isoformat" and not args:
+                    return [(f"{recv.tag[:4]}-{recv.tag[4:6]}-{recv.tag[6:]}", st)]
             if recv.cls.startswith("ext:") and ("ogger" in recv.cls or "logrus" in recv.cls) and name in ("debug", "info", "warning", "warn", "error", "exception", "critical", "log", "bind"):
                 return [(None, st)]
             if recv.cls == "vstat":
